@@ -19,9 +19,9 @@ INSTANCES = {
     "attrs": (dict(Names={"a"}, MaxDepth=2),
               {"quick": dict(AttrLists='{<<>>, <<"p">>, <<"q">>, <<"p","q">>, <<"q","p">>, <<"p","q","s">>, <<"s","q","p">>}',
                              OccBudget="<<3, 1>>"),
-               "thorough": dict(AttrLists='{<<>>, <<"p">>, <<"q">>, <<"s">>, <<"p","q">>, <<"q","p">>, <<"p","s">>, <<"s","p">>, '
-                                          '<<"q","s">>, <<"s","q">>, <<"p","q","s">>, <<"s","q","p">>, <<"q","s","p">>}',
-                                OccBudget="<<3, 3>>")}),
+               "thorough": dict(AttrLists='{<<>>, <<"p">>, <<"q">>, <<"s">>, <<"p","q">>, <<"q","p">>, <<"p","s">>, '
+                                          '<<"q","s">>, <<"p","q","s">>, <<"s","q","p">>, <<"q","s","p">>}',
+                                OccBudget="<<3, 2>>")}),
     # placement of Text / CDATA / comments / PIs
     "text": (dict(Names={"a"}, MaxText=2, MaxIgn=1, TextKinds={"Text", "CData"}, IgnKinds={"Comment", "PI", "Decl", "DocType"}),
              {"quick": dict(AttrLists="{<<>>}", OccBudget="<<2, 1>>"),
